@@ -362,10 +362,17 @@ class Unit:
                 mm = re.search(opts['block'], s.text)
                 if not mm:
                     raise ScanError('block anchor `%s` not found in %s' % (opts['block'], rel))
-                bo = s.m.index('{', mm.end())
-                if s.m[mm.end():bo].strip():
-                    raise ScanError('block anchor `%s`: no block directly after the anchor' % opts['block'])
-                loc = dict(header=None, start=bo, fn_kw=mm.start(), body_open=bo, body_close=match_close(s.m, bo))
+                if 'until' in opts:
+                    # statement span: from the anchor up to the `until` anchor, wrapped into a block
+                    mu = re.compile(opts['until']).search(s.text, mm.end())
+                    if not mu:
+                        raise ScanError('span end `%s` not found in %s' % (opts['until'], rel))
+                    loc = dict(header=None, start=mm.end(), fn_kw=mm.start(), body_open=mm.end(), body_close=mu.start() - 1, span=True)
+                else:
+                    bo = s.m.index('{', mm.end())
+                    if s.m[mm.end():bo].strip():
+                        raise ScanError('block anchor `%s`: no block directly after the anchor' % opts['block'])
+                    loc = dict(header=None, start=bo, fn_kw=mm.start(), body_open=bo, body_close=match_close(s.m, bo))
             else:
                 loc = s.find_fn(ty, fn, impl_re=opts.get('impl'), nth=int(opts['nth']) if 'nth' in opts else None)
         except (ScanError, ValueError) as e:
@@ -421,6 +428,8 @@ class Unit:
         # split signature / body
         sig_text = s.text[loc['start']:loc['body_open']]
         body_text = s.text[loc['body_open']:loc['body_close'] + 1]
+        if loc.get('span'):
+            body_text = '{\n' + body_text + '\n}'
         sig_new = self.apply_rules(sig_text, rec, sigsubs)
         if emitted_name != fn:
             sig_new = re.sub(r'\bfn\s+%s\b' % re.escape(fn), 'fn ' + emitted_name, sig_new, count=1)
